@@ -139,6 +139,12 @@ func manageCanaryStatus(annotations map[string]string, params *Parameters, now t
 // manageCanaryPodFailures checks if canary should be failed or paused due to restarts or other failures.
 // Note that pausing the canary will have no effect if it has been validated or failed.
 func manageCanaryPodFailures(pods []*v1.Pod, params *Parameters, result *Result, now time.Time) {
+	if params.Strategy.Canary == nil {
+		// The canary strategy was removed from the spec while this replica set is still listed as the
+		// canary in the ExtendedDaemonSet status: there is no threshold to evaluate.
+		return
+	}
+
 	var (
 		canary               = params.Strategy.Canary
 		autoPauseEnabled     = *canary.AutoPause.Enabled
